@@ -30,6 +30,8 @@ MIN_COUNTERS = {'contract_evaluations': 1}
 _contract = {'n': 0, 'fail': []}
 
 KEYS = ['a', 'b', 'c', '_u', 'k1', 'x_y', 7, 0, 1]
+RESERVED = ['items', 'keys', 'pop', 'update', 'ayns']        # names of class attributes: refused as new keys by design (C01), whatever the operation
+RENAME_TO = KEYS + RESERVED[:3]
 
 
 class ContractBroken(AssertionError):
@@ -95,7 +97,7 @@ def rand_tree(rng, depth=3):
 DICT_OPS = ['setitem', 'setitem', 'delitem', 'setattr', 'delattr', 'update', 'update_kw', 'setdefault', 'pop', 'pop_default', 'clear',
             'set_child', 'remove_child', 'rename_child']
 LIST_OPS = ['setitem', 'setitem', 'delitem', 'append', 'append', 'insert', 'insert', 'extend', 'remove', 'pop', 'pop_index', 'clear',
-            'set_child', 'remove_child']
+            'set_child', 'remove_child', 'rename_child']
 
 
 def gen_case(rng, tier):
@@ -104,7 +106,7 @@ def gen_case(rng, tier):
     ops = []
     for _ in range(n):
         ops.append({'sel': rng.random(), 'kind': rng.choice(['dict', 'list', 'list']), 'dop': rng.choice(DICT_OPS), 'lop': rng.choice(LIST_OPS),
-                    'kmode': rng.choice(['existing', 'existing', 'new', 'missing']), 'imode': rng.choice(['in', 'in', 'neg', 'end', 'oob', 'negoob', 'bad']),
+                    'kmode': rng.choice(['existing', 'existing', 'new', 'missing']), 'imode2': rng.choice(['in', 'end', 'oob', 'neg']), 'imode': rng.choice(['in', 'in', 'neg', 'end', 'oob', 'negoob', 'bad']),
                     'r': rng.random(), 'r2': rng.random(), 'value': rand_value(rng), 'wrap': rng.random() < 0.3,
                     'values': [rand_value(rng, 1) for _ in range(rng.randrange(0, 4))]})
     return {'tree': tree, 'via': rng.choice(['api', 'api', 'yaml']), 'ops': ops}
@@ -165,6 +167,8 @@ class Resync(Exception):
 def apply_ref(kind, name, ref, key, val, vals, op):
     """perform the operation on the reference builtin; returns the reference return value (or raises)"""
     if kind == 'dict':
+        if key in RESERVED and (name in ('setitem', 'setattr', 'set_child') or name == 'setdefault' and key not in ref):
+            raise ValueError('reserved name')
         if name in ('setitem', 'setattr', 'set_child'):
             ref[key] = val
             return None
@@ -189,12 +193,15 @@ def apply_ref(kind, name, ref, key, val, vals, op):
             ref.clear()
             return None
         if name == 'rename_child':
-            new = KEYS[int(op['r2'] * len(KEYS))]
+            new = RENAME_TO[int(op['r2'] * len(RENAME_TO))]
             if key not in ref or new in ref:
                 raise ValueError('rename')
             ref[new] = ref.pop(key)
             return None
     else:
+        if name == 'rename_child':
+            # the children of a list are numbered by position: there is no name to give, the only consistent outcome is a refusal
+            raise ValueError('rename')
         if name == 'setitem':
             ref[key] = val
             return None
@@ -265,8 +272,11 @@ def apply_real(kind, name, node, key, val, vals, op):
         elif name == 'clear':
             node.clear()
         elif name == 'rename_child':
-            node.ayns.rename_child(key, KEYS[int(op['r2'] * len(KEYS))])
+            node.ayns.rename_child(key, RENAME_TO[int(op['r2'] * len(RENAME_TO))])
     else:
+        if name == 'rename_child':
+            node.ayns.rename_child(key, pick_index(dict(op, r=op['r2'], imode=op.get('imode2', 'end')), len(node)))
+            return None
         if name == 'setitem':
             node[key] = val
         elif name == 'delitem':
@@ -331,6 +341,10 @@ def run(case):
             break
         if kind == 'dict':
             key = pick_key(op, rcont)
+            if name in ('setitem', 'set_child', 'setdefault') and op['kmode'] == 'new' and op['r2'] < 0.12:
+                key = RESERVED[int(op['r'] * len(RESERVED))]
+            if key in RESERVED and name in ('update', 'update_kw'):
+                name = 'setitem'
             if name in ('setattr', 'delattr') and not (isinstance(key, str) and monitors._is_simple(key) and not key.startswith('_')):
                 name = 'setitem' if name == 'setattr' else 'delitem'
         else:
